@@ -37,6 +37,9 @@ Rule table (C++ construct -> primitive):
     m_ttl_list.erase(first, last)                    l_erase_nodes; drop_nodes (UB: not a range of the list)
     m_ttl_list.clear()                               list := []; nodes := []
     T x;  (list iterator / keyed_element)            uninitialised local: a read before an assignment is refused
+    keyed_element{[v][, ttl_iterator{}]}  (temporary or initialiser of a local)   the same structure, member by member:
+                                                     m_value = v (value-initialised when omitted: no term, reading / storing
+                                                     it is refused), m_ttl_position value-initialised = singular (None)
     for (init; cond; inc) body                       whileB (base translator) with fuel  S (length m_ttl_list)
 """
 import cpp2coq
@@ -179,6 +182,12 @@ class Ext(cpp2coq.Tr):
         out, nid = self.list_append(args[1:], st, env, "emplace(end(), ..)")
         return out, "(It %s)" % nid
 
+    def value_initialised(self, c):
+        """c is the value-initialisation of its type (T{} / an omitted member, down to the scalars)"""
+        if c["k"] == "?ImplicitValueInitExpr":
+            return not c["a"]
+        return c["k"] == "init" and all(self.value_initialised(x) for x in c["a"])
+
     def is_assign(self, c):
         return (c["k"] == "bin" and c["n"] == "=") or (c["k"] == "op" and c["n"] == "operator=" and len(c["a"]) == 2)
 
@@ -187,6 +196,24 @@ class Ext(cpp2coq.Tr):
         k = c["k"]
         if k == "ref" and c["n"] in env and env[c["n"]][0] is UNINIT:
             raise Unsupported("read of the default-initialised local %s before any assignment" % c["n"])
+        if k == "init" and c["t"].replace("const ", "").endswith("::keyed_element"):
+            # keyed_element{...}: the members in declaration order ([m_value,] m_ttl_position), the omitted ones value-initialised
+            want = 2 if self.sc["valued"] else 1
+            if len(c["a"]) != want:
+                raise Unsupported("keyed_element initialised from %d members" % len(c["a"]))
+            b, tv = [], "tt"
+            if self.sc["valued"]:
+                if self.value_initialised(c["a"][0]):
+                    tv = UNINIT        # a value-initialised m_value has no term here: reading or storing it is refused
+                else:
+                    b, tv, kv = self.E(c["a"][0], st, env)
+                    if kv != "val":
+                        raise Unsupported("keyed_element with m_value initialised from %s" % kv)
+            p = c["a"][-1]
+            if not (p["k"] in ("construct", "?CXXTemporaryObjectExpr") and not p["a"]
+                    and p["t"].replace("const ", "").endswith("::ttl_iterator")):
+                raise Unsupported("keyed_element with m_ttl_position initialised from %s" % show(p)[:160])
+            return b, (tv, "None"), "kelem"    # a value-initialised list iterator is singular
         if k == "op" and c["n"] == "operator*" and len(c["a"]) == 1:
             raise Unsupported("operator* (the elements of this class's list are structures: use ->)")
         if k == "op" and c["n"] == "operator+" and len(c["a"]) == 2:
